@@ -20,7 +20,12 @@ MANIFEST = {
             "for exactly the selected draws N(0,sigma_th), N(0,sigma_sh) of n samples (thermal first) and sums exactly the selected "
             "terms + dark current, times R_load; sigma_th^2 = 4 kB T 10^(Fn/10) (fs/2)/R_load and sigma_sh^2 = 2 e (r (mean signal power + "
             "mean optical-noise power) + i_dark) (fs/2) are the variances handed to the RNG; unknown option -> ValueError; validation "
-            "table (order input, r, T, R_load, include_noise; TypeError / ValueError); output length.  Tie: Float run of the same "
+            "table (order input, r, T, R_load, include_noise; TypeError / ValueError); output length.  END TO END (Model/PdFull.lean = C11's "
+            "Filter.lpf after the pre-filter model): pd_cw_filtered (CW -> constant r*P*R_load at every sample after PD's actual "
+            "forward-backward filter, under C11's SteadyState / prod G = 1 hypotheses evaluated on the spied sections, N > pad), "
+            "pd_filtered_linear_r_R, pd_filtered_quadratic, pd_filtered_length, noise filtered by the same operator as the signal and "
+            "selected terms adding linearly after the filter (pd_filtered_noise_terms); the FINAL output (signal and noise) of the "
+            "real PD is compared with the composed model to 1e-12*scale*N.  Tie: Float run of the same "
             "definitions vs PD with opticomlib.devices.LPF spied (value handed to the filter compared sample by sample) and "
             "np.random.normal spied (loc, scale, size compared with the model's requests; recorded draws fed to the model).",
     "note": "The output filter is C11's model: here an abstract operator F (DC-preserving / length-preserving hypotheses); the oracle "
@@ -33,7 +38,7 @@ MANIFEST = {
     "design": "§5 C09",
 }
 GEN = ["PdTable"]
-MODELS = ["OptiVerif.Model.Pd", "OptiVerif.Gen.PdTable"]
+MODELS = ["OptiVerif.Model.Pd", "OptiVerif.Model.PdFull", "OptiVerif.Gen.PdTable"]
 RULE = ("cases = PD calls on random / CW optical fields (N in {17,18,31,32,33,64,100,127}, 1/2 pol, with/without optical noise) x every "
         "include_noise option in random letter case x r in (0,1] (incl. 1, int 1) x T (incl. 0) x R_load x i_dark x Fn x gv(sps,R) x BW in "
         "(0,fs/2) x numpy seed, each with twin calls (other seed, phase rotation, unitary mixing, scaled r/R_load, scaled amplitude); "
@@ -43,7 +48,8 @@ RULE = ("cases = PD calls on random / CW optical fields (N in {17,18,31,32,33,64
 PARTIAL = [
     "measured variance of the thermal/shot noise after the output filter = sigma^2 x noise-equivalent bandwidth: statistical oracle "
     "(thorough tier, >= 2^18 samples, 6-sigma band); the theorem states the sigma handed to the RNG",
-    "the output filter itself (LPF = zero-phase Bessel, unit DC gain) is property C11; here F is abstract and the oracle uses scipy's filter",
+    "the Bessel design (scipy.signal.bessel) and sosfilt_zi are parameters of the composed model (spied); the recursion of "
+    "sosfiltfilt itself is C11's model, composed here end to end",
     "zero mean / Gaussianity / independence of the draws: numpy's RNG is trusted (its draws are inputs of the model)",
     "floating-point rounding: theorems over the reals; Float run agrees with numpy to 1e-9 relative",
 ]
@@ -288,7 +294,9 @@ def _call_pd(case, s, nz, r, T, Rl, sel, seed, store_values=True, inp_kind="opti
         before = (x.signal.copy(), None if x.noise is None else x.noise.copy())
     out = {}
     np.random.seed(seed)
-    with _Spies() as sp:
+    import opticomlib.devices as dev
+    from harness.props import c11 as _c11          # C11's spies on scipy.signal.bessel / sosfiltfilt and its parameter extraction
+    with _Spies() as sp, _c11._Spy(dev) as fsp:
         try:
             with time_limit(60):
                 y = PD(x, case["BW"], r=r, T=T, R_load=Rl, include_noise=sel, i_dark=case["i_dark"], Fn=case["Fn"])
@@ -303,6 +311,8 @@ def _call_pd(case, s, nz, r, T, Rl, sel, seed, store_values=True, inp_kind="opti
             out.update(status="err", err=exc_enum(e), detail=repr(e)[:200])
     out["rng"] = sp.rng
     out["lpf"] = sp.lpf
+    # the sections PD's own filter used, their sosfilt_zi state, scipy's pad length, and the hypotheses of C11's dc_gain on them
+    out["filter"], out["filter_remarks"] = (_c11._params(fsp) if fsp.ff else (None, []))
     if before is not None:
         out["in_unchanged"] = bool(np.array_equal(x.signal, before[0]) and (x.noise is None or np.array_equal(x.noise, before[1])))
     return out
@@ -314,7 +324,7 @@ def _fl(a):
 
 def _pack(call, full=True):
     """JSON-serialisable view of one call"""
-    d = {k: call[k] for k in ("status", "err", "detail", "cls", "len", "in_unchanged") if k in call}
+    d = {k: call[k] for k in ("status", "err", "detail", "cls", "len", "in_unchanged", "filter", "filter_remarks") if k in call}
     d["rng"] = [{"loc": q["loc"], "scale": q["scale"], "size": q["size"], **({"values": _fl(q["values"])} if full else {})}
                 for q in call["rng"]]
     d["lpf_calls"] = len(call["lpf"])
@@ -481,13 +491,21 @@ def model_requests(case, res):
             q = next(it, None)
             dN = q["values"] if q else []
     is_opt = case.get("input", "optical") == "optical"
-    req = " ".join([
-        "pd.run", enc_bool(is_opt), enc_f(res["kB"]), enc_f(res["e"]), enc_f(res["fs"]),
+    tail = " ".join([
+        enc_bool(is_opt), enc_f(res["kB"]), enc_f(res["e"]), enc_f(res["fs"]),
         _enc_pyval(case["r"], res["mro"]["r"]), _enc_pyval(case["T"], res["mro"]["T"]), _enc_pyval(case["R_load"], res["mro"]["R_load"]),
         _enc_sel(case["sel"]), enc_f(case["i_dark"]), enc_f(float(case["Fn"])), enc_flist(dT), enc_flist(dN)])
     if is_opt:
-        req += " " + _enc_field(res["inp"])
-    return [req]
+        tail += " " + _enc_field(res["inp"])
+    reqs = ["pd.run " + tail]
+    p = main.get("filter")
+    if p:
+        # end to end: the same call through PD's actual filter (sections / zi / pad length spied from scipy: C11's model)
+        secs = [str(len(p["sos"]))]
+        for row, z in zip(p["sos"], p["zi"]):
+            secs += [enc_f(row[0]), enc_f(row[1]), enc_f(row[2]), enc_f(row[4]), enc_f(row[5]), enc_f(z[0]), enc_f(z[1])]
+        reqs.append(f"pdfull.run {p['edge']} {' '.join(secs)} {tail}")
+    return reqs
 
 
 def _parse_reqs(t):
@@ -547,6 +565,46 @@ def compare(case, res, reqs, replies):
             if q["loc"] != loc or q["size"] != size or abs(q["scale"] - scale) > 1e-9 * max(abs(scale), 1e-300):
                 out.append(f"np.random.normal call {k}: model (loc={loc}, scale={scale!r}, size={size}) vs implementation "
                            f"(loc={q['loc']}, scale={q['scale']!r}, size={q['size']})")
+    if len(replies) > 1:
+        out += _compare_full(case, main, replies[1])
+    elif main["status"] == "ok":
+        out.append("PD returned but scipy.signal.sosfiltfilt was not observed: no end-to-end comparison possible")
+    return out
+
+
+def _compare_full(case, main, rep):
+    """FINAL output of PD vs Filter.lpf o pd (C11's model of sosfiltfilt is exact to the last bits: 1e-12 * scale * N)"""
+    from harness.props import c11 as _c11
+    out = []
+    p = main["filter"]
+    for rm in main.get("filter_remarks") or []:
+        out.append("output filter: " + rm)
+    if p["ff_calls"] != 2 or p["bessel_calls"] != 1:
+        out.append(f"PD's filter: {p['bessel_calls']} designs / {p['ff_calls']} sosfiltfilt calls (1 / 2 expected: signal and noise)")
+    # hypotheses of pd_cw_filtered (C11's dc_gain) on the coefficients scipy actually used
+    out += _c11._hyp(p)
+    if rep.startswith("ok "):
+        if main["status"] != "ok":
+            return out + [f"end to end: model returns, implementation {main['status']} {main.get('err')}"]
+        t = Toks(rep[3:])
+        _parse_reqs(t)
+        msig, mnoise = t.flist(), t.flist()
+        n = len(main["out_sig"])
+        for name, m, i in (("signal", msig, main["out_sig"]), ("noise", mnoise, main["out_noise"])):
+            pre = main["pre_sig"] if name == "signal" else main["pre_noise"]
+            scale = max(max(abs(v) for v in pre), 1e-300)
+            if i is None or len(m) != len(i):
+                out.append(f"end to end: {name} part has {len(m)} samples in the model, {None if i is None else len(i)} in the implementation")
+            else:
+                worst = max(abs(a - b) for a, b in zip(m, i))
+                if worst > 1e-12 * scale * n:
+                    out.append(f"end to end: FINAL {name} part of PD differs from Filter.lpf(pre-filter model) by {worst:.3e} (scale {scale:.3e}, N={n})")
+    elif rep.startswith("err "):
+        err = rep.split()[1]
+        if main["status"] != "err" or main.get("err") != err:
+            out.append(f"end to end: model raises {err}, implementation {main['status']} {main.get('err')}")
+    else:
+        out.append(f"end to end: model reply {rep[:80]}")
     return out
 
 
